@@ -136,6 +136,23 @@ def mutate(rng, v, depth=0):
     return v
 
 
+def share_equal_containers(v, pool=None):
+    """the same value with equal lists / mappings represented by ONE object (what a YAML alias, or a Python value
+    reused inside programmatically built data, gives)"""
+    pool = {} if pool is None else pool
+    if isinstance(v, list):
+        out = [share_equal_containers(x, pool) for x in v]
+    elif type(v) is dict:
+        out = {k: share_equal_containers(x, pool) for k, x in v.items()}
+    else:
+        return v
+    try:
+        key = json.dumps(out, sort_keys=True, default=repr) + type(out).__name__
+    except TypeError:
+        return out
+    return pool.setdefault(key, out)
+
+
 class Pairs(Suite):
     name = 'registry_pairs'
     imports = 'Value Repr Param ReprProofs ReadProofs InjProofs'
@@ -186,6 +203,14 @@ Definition pair_model (c : list pdecl * (list (str * value) * list (str * value)
             dict(decls=[d(), d(name='b', cfg='b', default=[2], dropdef=True)], c1={'a': 1, 'b': 2}, c2={'a': 1, 'b': 3}),
             dict(decls=[d(), d(name='b', cfg='b')], c1={'a': 'x###b=y', 'b': 'z'}, c2={'a': 'x', 'b': 'y###b=z'}),
             dict(decls=[d(name='lr'), d(name='b', cfg='b', ignore=True)], c1={'lr': 1, 'b': 1}, c2={'lr': 1, 'b': 2}),
+            # canonically equivalent but different texts (composed / decomposed), in values and in mapping keys
+            dict(decls=[d()], c1={'a': 'caf\u00e9'}, c2={'a': 'cafe\u0301'}),
+            dict(decls=[d()], c1={'a': {'\u212b': 1}}, c2={'a': {'\u00c5': 1}}),
+            dict(decls=[d()], c1={'a': ['x', {'k': '\u1100\u1161'}]}, c2={'a': ['x', {'k': '\uac00'}]}),
+            # one list / mapping object at two positions of a value (a YAML anchor and its alias, a list reused in data=)
+            dict(decls=[d()], c1={'a': {'a': [1], 'b': [2], 'c': [1]}}, c2={'a': {'a': [1], 'b': [2], 'c': [2]}}, alias=True),
+            dict(decls=[d()], c1={'a': [{'k': 1}, {'k': 2}, {'k': 1}]}, c2={'a': [{'k': 1}, {'k': 2}, {'k': 2}]}, alias=True),
+            dict(decls=[d(), d(name='b', cfg='b')], c1={'a': [[0]], 'b': [[0], [1], [0]]}, c2={'a': [[0]], 'b': [[0], [1], [1]]}, alias=True),
             # long values that differ far from both ends of their text
             dict(decls=[d()], c1={'a': list(range(400))}, c2={'a': list(range(200)) + [-1] + list(range(201, 400))}),
             dict(decls=[d()], c1={'a': {f'k{i:02d}': {'v': i} for i in range(60)}},
@@ -228,7 +253,10 @@ Definition pair_model (c : list pdecl * (list (str * value) * list (str * value)
         for tag in ('c1', 'c2'):
             reg = ParameterRegistry([make_parameter(d) for d in case['decls']])
             try:
-                reg.set_values({k: materialize(v) for k, v in case[tag].items()})
+                vals = {k: materialize(v) for k, v in case[tag].items()}
+                if case.get('alias'):
+                    vals = share_equal_containers(vals)
+                reg.set_values(vals)
             except ValueError as e:
                 return dict(error='ValueError', text=str(e)[:120])
             res[tag] = dict(repr=reg.repr,
